@@ -423,6 +423,7 @@ func cmdRun(args []string) int {
 	pstr := fs.String("params", "", "k=v,k=v")
 	stubs := fs.String("stubs", "", "callee=stub;callee=stub")
 	noops := fs.String("noops", "", "callee;callee")
+	allow := fs.String("allow", "", "extra allow-listed packages, comma separated")
 	nolem := fs.Bool("nolemmas", false, "disable zzLemma")
 	rewrite := fs.String("rewrite", "", "native rewrite entries file.go:Recv.Method=stub;...")
 	fix := fs.String("fix", "", "replay.json whose vals make the run concrete")
@@ -458,6 +459,9 @@ func cmdRun(args []string) int {
 		}
 	}
 	lemmasOff = *nolem
+	if *allow != "" {
+		js.AllowPkgs = strings.Split(*allow, ",")
+	}
 	if *rewrite != "" {
 		js.Rewrite = strings.Split(*rewrite, ";")
 	}
